@@ -578,3 +578,172 @@ class IsRuleKind(Contract):
 
     def frame_ok(self, I, inp, obj, name):
         return False
+
+
+CBASE = "sigma.processing.conditions.base"
+
+
+class _Ident(Contract):
+    """a condition identifier in a condition expression evaluates exactly like the condition it names, with the SAME method: a field name
+    condition asked about a detection item answers match_detection_item (field or field-reference values), not a part of it"""
+    props = ("C13",)
+    method = ""
+    good = ""
+
+    def cond(self, I, base):
+        r = {m: I.fresh(f"cond.{m}", "bool") for m in ("match", "match_detection_item", "match_detection_item_field", "match_detection_item_value", "match_field_name", "match_value")}
+        o = SObj(I.E.index.lookup(f"{CBASE}:{base}"), {m: NativeFn(m, (lambda v: lambda I2, a, k: v)(v)) for m, v in r.items()})
+        o.ghost["r"] = r
+        return o
+
+    def item(self, I, kind):
+        idx = I.E.index
+        if kind == "rule":
+            return SObj(idx.lookup("sigma.rule.rule:SigmaRule"), {}, lazy=True)
+        if kind == "corr":
+            return SObj(idx.lookup("sigma.correlations:SigmaCorrelationRule"), {}, lazy=True)
+        if kind == "item":
+            return SObj(idx.lookup("sigma.rule.detection:SigmaDetectionItem"), {}, lazy=True)
+        return I.fresh("field_name", "str")
+
+    def args(self, I, case):
+        base, kind = case
+        cnd = self.cond(I, base)
+        me = SObj(I.E.index.lookup(f"{CE}:ConditionIdentifier"), {"identifier": "c1", "_condition": cnd, "expression": "c1", "location": 0}, lazy=True)
+        return {"self": me, "args": [self.item(I, kind)], "cnd": cnd, "case": case}
+
+    def post(self, I, inp, res):
+        base, kind = inp["case"]
+        I.ctx.require(self.ok(base, kind), "a condition of the wrong kind for the item is rejected")
+        I.ctx.require(res is inp["cnd"].ghost["r"][self.method], f"the result is the named condition's {self.method}() on the same item")
+
+    def raises(self, I, inp, exc):
+        base, kind = inp["case"]
+        I.ctx.require(exc_is(I, exc, "SigmaPipelineConditionError") and not self.ok(base, kind), f"SigmaPipelineConditionError exactly for a condition of the wrong kind (got {exc_name(exc)})", kind="SAFE")
+
+    def frame_ok(self, I, inp, obj, name):
+        return False
+
+
+@register
+class IdentMatch(_Ident):
+    id = "C13.ConditionIdentifier.match"
+    target = f"{CE}:ConditionIdentifier.match"
+    method = "match"
+    cases = tuple((b, k) for b in ("RuleProcessingCondition", "DetectionItemProcessingCondition", "FieldNameProcessingCondition") for k in ("rule", "corr", "item"))
+
+    def ok(self, base, kind):
+        return (base == "RuleProcessingCondition" and kind in ("rule", "corr")) or (base == "DetectionItemProcessingCondition" and kind == "item")
+
+
+@register
+class IdentMatchDetectionItem(_Ident):
+    id = "C13.ConditionIdentifier.match_detection_item"
+    target = f"{CE}:ConditionIdentifier.match_detection_item"
+    method = "match_detection_item"
+    cases = tuple((b, "item") for b in ("RuleProcessingCondition", "DetectionItemProcessingCondition", "FieldNameProcessingCondition"))
+
+    def ok(self, base, kind):
+        return base == "FieldNameProcessingCondition"
+
+
+@register
+class IdentMatchFieldName(_Ident):
+    id = "C13.ConditionIdentifier.match_field_name"
+    target = f"{CE}:ConditionIdentifier.match_field_name"
+    method = "match_field_name"
+    cases = tuple((b, "name") for b in ("RuleProcessingCondition", "DetectionItemProcessingCondition", "FieldNameProcessingCondition"))
+
+    def ok(self, base, kind):
+        return base == "FieldNameProcessingCondition"
+
+
+@register
+class FieldNameConditionDetectionItem(Contract):
+    """FieldNameProcessingCondition.match_detection_item: the item's field matches, or one of its values is a field reference to a
+    matching field (values of other types never match)"""
+    id = "C13.FieldNameProcessingCondition.match_detection_item"
+    target = f"{CBASE}:FieldNameProcessingCondition.match_detection_item"
+    props = ("C13", "C12")
+    cases = ("", "r", "s", "rs", "sr", "rr")
+    assumed = ["match_field_name of the concrete condition is an uninterpreted predicate of the name; value lists of 0..2 values (r = field reference, s = string), unrolled"]
+
+    def args(self, I, case):
+        idx = I.E.index
+        P = z3.Function("field_name_matches", z3.StringSort(), z3.BoolSort())
+        me = SObj(idx.lookup(f"{CBASE}:FieldNameProcessingCondition"), {"match_field_name": NativeFn("match_field_name", lambda I2, a, k: Sym(P(mk_str(I2.force(a[0]))), "bool") if a[0] is not None else I2.fresh("kw", "bool"))}, lazy=True)
+        vals, refs = [], []
+        for i, ch in enumerate(case):
+            if ch == "r":
+                fr = I.fresh(f"ref{i}", "str")
+                refs.append(fr)
+                vals.append(SObj(idx.lookup("sigma.types:SigmaFieldReference"), {"field": fr}, lazy=True))
+            else:
+                vals.append(SObj(idx.lookup("sigma.types:SigmaString"), {}, lazy=True))
+        fld = I.fresh("item_field", "str")
+        item = SObj(idx.lookup("sigma.rule.detection:SigmaDetectionItem"), {"field": fld, "value": vals}, lazy=True)
+        return {"self": me, "args": [item], "P": P, "fld": fld, "refs": refs}
+
+    def post(self, I, inp, res):
+        P = inp["P"]
+        spec = z3.Or(P(inp["fld"].t), *[P(r.t) for r in inp["refs"]])
+        I.ctx.require(ops.mk_bool_term(ops.truth(I, res)) == spec, "matches iff the field name matches or a field-reference value refers to a matching field")
+
+    def frame_ok(self, I, inp, obj, name):
+        return False
+
+
+def _mk_find(clsname):
+    class C(Contract):
+        __doc__ = f"""{clsname}.find_detection_item searches the WHOLE detection tree: true iff some detection item at any nesting depth
+        (a selection written as a list of maps, or produced by a one-to-many field mapping, nests detections) has the field"""
+        id = f"C13.{clsname}.find_detection_item"
+        target = f"{CR}:{clsname}.find_detection_item"
+        props = ("C13",)
+        cases = ("i", "[]", "[ii]", "[[i]i]", "[i[i[i]]]", "[[][i]]")
+        assumed = ["tree shapes unrolled (depth <= 3); field names symbolic" + ("; the value comparison of contains_detection_item is an uninterpreted predicate per item" if "DetectionItem" in clsname else "")]
+
+        def build(self, I, shape, leaves):
+            idx = I.E.index
+            D, IT = idx.lookup("sigma.rule.detection:SigmaDetection"), idx.lookup("sigma.rule.detection:SigmaDetectionItem")
+            pos = [0]
+
+            def rec():
+                ch = shape[pos[0]]
+                pos[0] += 1
+                if ch == "i":
+                    f = I.fresh(f"field{len(leaves)}", "str")
+                    hit = I.fresh(f"value_hit{len(leaves)}", "bool")
+                    leaves.append((f, hit))
+                    return SObj(IT, {"field": f, "value": SObj("Values", {}, ghost={"hit": hit})}, lazy=True)
+                kids = []
+                while shape[pos[0]] != "]":
+                    kids.append(rec())
+                pos[0] += 1
+                return SObj(D, {"detection_items": kids}, lazy=True)
+            return rec()
+
+        def setup(self, E):
+            pass
+
+        def args(self, I, case):
+            leaves = []
+            tree = self.build(I, case, leaves)
+            want = I.fresh("wanted_field", "str")
+            fields = {"field": want}
+            if "DetectionItem" in clsname:
+                fields.update({"value": I.fresh("v", "opaque", "V"), "sigma_value": SObj("SV", {})})
+            me = SObj(I.E.index.lookup(f"{CR}:{clsname}"), fields, lazy=True)
+            return {"self": me, "args": [tree], "leaves": leaves, "want": want}
+
+        def post(self, I, inp, res):
+            spec = ops.mk_or([f.t == inp["want"].t for f, hit in inp["leaves"]])
+            I.ctx.require(ops.mk_bool_term(ops.truth(I, res)) == spec, "true iff some detection item of the tree, at any depth, has the field")
+
+        def frame_ok(self, I, inp, obj, name):
+            return False
+    C.__name__ = f"Find_{clsname}"
+    return C
+
+
+register(_mk_find("RuleContainsFieldCondition"))
